@@ -224,6 +224,14 @@ def classify(v: dict) -> str | None:
 	return None
 
 
+def unparsable_import_files() -> None:
+	src_dir = state()['src_dir']
+	with open(os.path.join(src_dir, 'vf07_broken.py'), 'w', encoding='utf-8') as f:
+		f.write('def f(:\n\treturn 1\n')
+	with open(os.path.join(src_dir, 'vf07_via.py'), 'w', encoding='utf-8') as f:
+		f.write('from vf07_broken import f\ny: int = 1\n')
+
+
 def shard(ctx: Ctx, acc: Acc) -> None:
 	from vf.gen import mutate
 	from vf.gen.syntactic import SynGen
@@ -309,6 +317,11 @@ def shard(ctx: Ctx, acc: Acc) -> None:
 				f.write('from vf07_nowhere import x\ny: int = 1\n')
 			for _ in range(3):
 				judge(acc, {'text': 'from vf07_miss import y\nz: int = y\n', 'path': 'mixed', 'kind': 'witness-import-of-missing'})
+			# an on-disk module the parser refuses, reached through an import: the refusal surfaces as Errors.Syntax however the module is reached
+			unparsable_import_files()
+			for _ in range(2):
+				judge(acc, {'text': 'from vf07_broken import f\nz: int = 1\n', 'path': 'mixed', 'kind': 'witness-import-of-unparsable'})
+				judge(acc, {'text': 'from vf07_via import y\nz: int = y\n', 'path': 'mixed', 'kind': 'witness-import-of-unparsable'})
 			judge(acc, {'text': 'a = 1\n', 'path': 'mixed', 'kind': 'witness'})
 		if ctx.shard == 0:
 			# witnesses of the two defects fixed in /repo (known_findings.json, status=fixed)
@@ -326,6 +339,8 @@ def replay(ctx: Ctx, case: dict, acc: Acc) -> None:
 		if case.get('path') == 'interactive':
 			interactive_case(acc, case['text'], GOOD, case)
 		else:
+			if case.get('kind') == 'witness-import-of-unparsable':
+				unparsable_import_files()
 			judge(acc, case)
 	finally:
 		cleanup()
